@@ -23,6 +23,33 @@ LATTICES = {
 }
 
 
+def _central_of(rel):
+    """index of the central vertex (the origin) in each tetrahedron of a public `tetrahedra` table"""
+    rel = np.asarray(rel)
+    return np.array([int(np.where((t == 0).all(axis=1))[0][0]) for t in rel], dtype="int64")
+
+
+def _py_table(TM, d):
+    """relative grid addresses + central indices of the Python implementation for main diagonal d (public attributes only)"""
+    tm = TM.TetrahedronMethod(LATTICES[d], mesh=[1, 1, 1], lang="Py")
+    rel = np.array(tm.tetrahedra)
+    return rel, _central_of(rel)
+
+
+def _gp_ir_index(table, ir_grid_points):
+    pos = {int(g): i for i, g in enumerate(ir_grid_points)}
+    return np.array([pos[int(g)] for g in table], dtype="int64")
+
+
+def _set_route(run, obj, openmp):
+    """select the compiled / TetrahedronMesh route of a DOS object; False if the (private) switch is not there"""
+    if not hasattr(obj, "_openmp_thm"):
+        run.count("intermediate hook unavailable: Dos._openmp_thm", section="correspondence")
+        return False
+    obj._openmp_thm = openmp
+    return True
+
+
 def _rats(a):
     return " ".join(q(float(x)) for x in np.asarray(a, dtype="double").ravel())
 
@@ -109,7 +136,7 @@ def main(run):
     lines.append("tables")
     meta.append(("tables", None, allrel))
     for d in range(4):
-        rel_py, cen = TM._get_relative_grid_addresses_from_main_diagonal(d)
+        rel_py, cen = _py_table(TM, d)
         sc = sorted(tuple(sorted(map(tuple, t.tolist()))) for t in allrel[d])
         sp = sorted(tuple(sorted(map(tuple, t.tolist()))) for t in rel_py)
         if sc != sp:
@@ -130,7 +157,7 @@ def main(run):
             if abs(one - res[("C", fn)][len(om) // 2]) > 1e-13 * max(1.0, abs(one)):
                 run.violation("phonoc.tetrahedra_integration_weight", "scalar-ne-array", "scalar and array entry points differ", info)
             tm = TM.TetrahedronMethod(LATTICES[d], mesh=[1, 1, 1], lang="Py")
-            if not (tm._central_indices == central).all():
+            if not (_central_of(tm.tetrahedra) == central).all():
                 raise RuntimeError("harness: central indices changed")
             tm.set_tetrahedra_omegas(np.array(tet_py, dtype="double"))
             with np.errstate(all="ignore"):
@@ -167,7 +194,7 @@ def main(run):
             run.violation("get_tetrahedra_relative_grid_address", "main-diagonal", "C picks a different main diagonal than the shortest (%d)" % d, dict(diagonal=d))
             continue
         tmpy = TM.TetrahedronMethod(LATTICES[d], mesh=mesh, lang="Py")
-        rel_py, central = tmpy.tetrahedra, np.array(tmpy._central_indices)
+        rel_py, central = np.array(tmpy.tetrahedra), _central_of(tmpy.tetrahedra)
         if sorted(tuple(sorted(map(tuple, t.tolist()))) for t in rel_py) != sorted(tuple(sorted(map(tuple, t.tolist()))) for t in rel_c):
             run.violation("TetrahedronMethod", "main-diagonal", "Python picks a different main diagonal than C", dict(diagonal=d))
             continue
@@ -191,7 +218,7 @@ def main(run):
         order = perms[:]
         rng.shuffle(order)
         tet_c = np.array([[base[p[k]] / 4.0 for k in range(4)] for p in order], dtype="double")
-        rel_py, central = TM._get_relative_grid_addresses_from_main_diagonal(d)
+        rel_py, central = _py_table(TM, d)
         tet_py = tet_c.copy()
         for t in range(24):
             ci = int(central[t])
@@ -255,7 +282,7 @@ def main(run):
             run.count("gp2ir tables vs model", section="correspondence")
             parts = [[int(t) for t in p_.split()] for p_ in line.split("|")] if line != "bad-op" else None
             if parts is None or len(parts) != 4 or parts[0] != impl["gp_ir_index"] or parts[3] != impl["gp_ir_index"] or parts[1] != impl["ir"] or parts[2] != impl["weights"]:
-                run.broke("correspondence", "TetrahedronMesh._prepare / extract_ir_grid_points differ from the gp2ir model", dict(info, impl=impl, model=line[:300]))
+                run.broke("correspondence", "TetrahedronMesh ir-index table / extract_ir_grid_points differ from the gp2ir model", dict(info, impl=impl, model=line[:300]))
             continue
         if kind == "smear":
             ncmp += 1
@@ -580,7 +607,12 @@ def _mesh_lookup(run, rng, thorough, lines, meta, allrel):
         nir = len(gp.ir_grid_points)
         thm = TetrahedronMesh(ph.primitive, np.zeros((nir, 1)), mesh, np.array(gp.grid_address, dtype="int64"), tab, gp.ir_grid_points)
         lines.append("gp2ir %d %s" % (len(tab), " ".join(str(int(v)) for v in tab)))
-        meta.append(("gp2ir", dict(cell=name, mesh=mesh), dict(gp_ir_index=[int(v) for v in thm._gp_ir_index], ir=[int(v) for v in gp.ir_grid_points],
+        hook = getattr(thm, "_gp_ir_index", None)
+        if hook is None:
+            # optional refinement (the iteration results of TetrahedronMesh are compared with the models elsewhere)
+            run.count("intermediate hook unavailable: TetrahedronMesh._gp_ir_index", section="correspondence")
+            hook = _gp_ir_index(tab, gp.ir_grid_points)
+        meta.append(("gp2ir", dict(cell=name, mesh=mesh), dict(gp_ir_index=[int(v) for v in hook], ir=[int(v) for v in gp.ir_grid_points],
                                                                weights=[int(v) for v in gp.weights])))
     # the compiled kernel (its own gp2ir loop) and the TetrahedronMesh loop give the same total DOS on a reduced mesh
     name = rng.choice(["cscl", "nacl_prim", "hcp"])
@@ -592,12 +624,13 @@ def _mesh_lookup(run, rng, thorough, lines, meta, allrel):
     doses = []
     for openmp in (True, False):
         td = TotalDos(ph.mesh, use_tetrahedron_method=True)
-        td._openmp_thm = openmp
+        if not _set_route(run, td, openmp):
+            break
         td.set_draw_area(freq_pitch=(td.frequency_points[-1] - td.frequency_points[0]) / 40)
         td.run()
         doses.append(np.array(td.dos))
     run.count("oracle-dos-kernel-vs-tetrahedron-mesh", section="oracle")
-    if np.abs(doses[0] - doses[1]).max() > 1e-9 * max(1.0, np.abs(doses[0]).max()):
+    if len(doses) == 2 and np.abs(doses[0] - doses[1]).max() > 1e-9 * max(1.0, np.abs(doses[0]).max()):
         run.violation("TotalDos.run", "kernel-ne-tetrahedron-mesh", "compiled tetrahedron DOS and TetrahedronMesh loop differ by %.3g on a symmetry-reduced mesh"
                       % np.abs(doses[0] - doses[1]).max(), dict(cell=name, mesh=mesh))
 
@@ -650,7 +683,8 @@ def _grid_order(run, rng, thorough, lines, meta):
             # the compiled driver vs the TetrahedronMesh loop on the reversed grid (total DOS)
             if coef is None:
                 td = TotalDos(m, use_tetrahedron_method=True)
-                td._openmp_thm = False
+                if not _set_route(run, td, False):
+                    continue
                 td.set_draw_area(freq_min=float(asc[-1]), freq_max=float(asc[0]), freq_pitch=-float(asc[1] - asc[0]))
                 td.run()
                 fdesc = np.array(td.frequency_points, dtype="double")
@@ -734,26 +768,27 @@ def _object_reuse(run, rng, thorough, lines, meta):
                 band = rng.randint(0, fr.shape[1] - 1)
                 tm = TetrahedronMethod(np.linalg.inv(ph.primitive.cell), mesh=m.mesh_numbers, lang=lang)
                 tet = np.array(get_tetrahedra_frequencies(int(m.ir_grid_points[igp]), np.array(m.mesh_numbers, dtype="int64"), ga, tm.tetrahedra,
-                                                          obj._gp_ir_index, fr, grid_order=[1, int(mesh[0]), int(mesh[0] * mesh[1])], lang=lang0))[band]
+                                                          _gp_ir_index(tab, m.ir_grid_points), fr, grid_order=[1, int(mesh[0]), int(mesh[0] * mesh[1])], lang=lang0))[band]
                 impl = got[igp][:, band] * float(np.prod(mesh))
                 if lang == "C":
                     lines.append("cw %s %s %d %s %s" % (value, q(EPS), len(fps[ifp]), _rats(fps[ifp]), _rats(tet)))
                     meta.append(("cw", dict(info, function=value, grid_point=igp, band=band), np.array(impl)))
                 else:
                     for cl in (0, 1):
-                        lines.append("pw %s %d %d %s %s %s" % (value, cl, len(fps[ifp]), _rats(fps[ifp]), _rats(tet), " ".join(str(int(c)) for c in tm._central_indices)))
+                        lines.append("pw %s %d %d %s %s %s" % (value, cl, len(fps[ifp]), _rats(fps[ifp]), _rats(tet), " ".join(str(int(c)) for c in _central_of(tm.tetrahedra))))
                         meta.append(("pw%d" % cl, dict(info, function=value, grid_point=igp, band=band), impl))
         # the DOS classes hold a TetrahedronMesh: run, change the frequency points, run again == fresh object
         for cls, kw in ((TotalDos, {}), (ProjectedDos, {})):
             d = cls(m, use_tetrahedron_method=True, **kw)
-            d._openmp_thm = False
+            if not _set_route(run, d, False):
+                continue
             d.set_draw_area(freq_min=fmin - 0.2, freq_max=fmax + 0.2, freq_pitch=(fmax - fmin + 0.4) / 6)
             d.run()
             d.set_draw_area(freq_min=fmin, freq_max=fmax, freq_pitch=(fmax - fmin) / 4)
             d.run()
             second = np.array(d.dos if cls is TotalDos else d.projected_dos)
             f = cls(m, use_tetrahedron_method=True, **kw)
-            f._openmp_thm = False
+            _set_route(run, f, False)
             f.set_draw_area(freq_min=fmin, freq_max=fmax, freq_pitch=(fmax - fmin) / 4)
             f.run()
             refd = np.array(f.dos if cls is TotalDos else f.projected_dos)
